@@ -49,8 +49,13 @@ def finding_matches_failure(f, rec):
     return True
 
 
+# evidence and replay files go to /verif unless the seeded-change audit redirects them (KVC_OUT), so that runs against a
+# deliberately broken scratch copy never overwrite the evidence of the real tree
+OUTDIR = os.environ.get('KVC_OUT') or VERIF
+
+
 def write_replay(pid, kind, payload):
-    d = os.path.join(VERIF, 'replays')
+    d = os.path.join(OUTDIR, 'replays')
     os.makedirs(d, exist_ok=True)
     path = os.path.join(d, f'{pid}-{kind}-{int(time.time() * 1000) % 10**10}.json')
     json.dump(payload, open(path, 'w'), indent=1, default=str)
@@ -244,8 +249,8 @@ def run_property(pid, tier='quick', seed=0, out=sys.stdout):
         'coverage': cov, 'assumptions': getattr(mod, 'ASSUMPTIONS', []),
         'wall_s': round(time.time() - t_start, 2), 'violations': len(violations),
     }
-    os.makedirs(os.path.join(VERIF, 'evidence'), exist_ok=True)
-    json.dump(ev, open(os.path.join(VERIF, 'evidence', f'{pid}.json'), 'w'), indent=1, default=str)
+    os.makedirs(os.path.join(OUTDIR, 'evidence'), exist_ok=True)
+    json.dump(ev, open(os.path.join(OUTDIR, 'evidence', f'{pid}.json'), 'w'), indent=1, default=str)
     for ln in lines:
         print(ln, file=out)
     summary = (f'{pid} [{tier}] obligations={n_obl} discharged={len(discharged)} refuted={len(refuted)} '
